@@ -8,9 +8,9 @@ ALL = ["C%02d" % i for i in range(1, 21)]
 
 CLAIMED = {
     "C11": dict(
-        text="Coq theorems: a teardown invariant (held qubits of a node = |qubitList|, handles live) holds over every application history; StopApp completes and answers Done on error-free applications and leaves no held qubit of the application, for any number of application generations (`C11_stop_restores`); the network a host drives is a reachable Model-V state and, once every application is stopped, NO node holds a qubit, simulates a qubit or keeps a register (`C11_stop_leaves_nothing`, via 'registers are never empty at a quiescent point'); halves handed to the peer survive the creator's stop; `_refuted` witness for a pair creation that fails after its two temporaries exist (known finding). Several hosts with pair creation (Qasm/TeardownNet.v): over one shared Model-V network with one host per node, for every history of instructions, successful pair creations (cmd_epr_keep + delivery) and polls that is `clean` (no creation refused after a temporary exists = the known finding, no binding to an occupied address, no re-initialised application id), the global invariant holds, held(j) = |qubit list of j| + |unclaimed halves at j|, nothing host i executes (in particular a stop) changes what another node holds (C11_stop_keeps_peer_halves), and once every host has stopped and no half is unclaimed NO node holds, simulates or registers anything (C11_net_stop_leaves_nothing; C11_unclaimed_half_stays shows the hypothesis is needed). The N-host glue (address mapping, receive deques) has no correspondence of its own; the multi-node oracle of the check exercises the same histories on the real handlers. Tie: applications with allocations, frees, pair halves and deliberately failing subroutines at capacities 1..3 over >= 3 generations through the real handler; on 2-3 nodes: generations of create-and-keep requests, gates between the halves a node holds (repeater: both simulated elsewhere), measurements, frees and stops in any order, after which every node's (held, simulated, registers, register counter) must be (0, 0, 0, 0) and a stop must not change what other nodes hold.",
+        text="Coq theorems: a teardown invariant (held qubits of a node = |qubitList|, handles live) holds over every application history; StopApp completes and answers Done on error-free applications and leaves no held qubit of the application, for any number of application generations (`C11_stop_restores`); the network a host drives is a reachable Model-V state and, once every application is stopped, NO node holds a qubit, simulates a qubit or keeps a register (`C11_stop_leaves_nothing`, via 'registers are never empty at a quiescent point'); halves handed to the peer survive the creator's stop; a pair creation that does not succeed answers an error and leaves every host's bookkeeping and every node's held qubits, simulated qubits, registers and register count exactly as before (C11_failed_creation_restores; the repaired cmd_epr removes its temporaries; C11_unrepaired_code_leaked keeps the old behaviour as a refutation of the old function). Several hosts with pair creation (Qasm/TeardownNet.v): over one shared Model-V network with one host per node, for every history of instructions, successful pair creations (cmd_epr_keep + delivery) and polls that is `clean` (no binding to an occupied address, no re-initialised application id; refused pair creations ARE allowed), the global invariant holds, held(j) = |qubit list of j| + |unclaimed halves at j|, nothing host i executes (in particular a stop) changes what another node holds (C11_stop_keeps_peer_halves), and once every host has stopped and no half is unclaimed NO node holds, simulates or registers anything (C11_net_stop_leaves_nothing; C11_unclaimed_half_stays shows the hypothesis is needed). The N-host model (cmd_epr_keep with its cleanup, address mapping, receive deques, polls) is tied message by message by Qasm/EprCases.v (native calls incl. the cleanup measurements, node dumps, host bookkeeping, deques) on failed and successful requests; the multi-node oracle exercises longer histories on the real handlers. Tie: applications with allocations, frees, pair halves and deliberately failing subroutines at capacities 1..3 over >= 3 generations through the real handler; on 2-3 nodes: generations of create-and-keep requests, gates between the halves a node holds (repeater: both simulated elsewhere), measurements, frees and stops in any order, after which every node's (held, simulated, registers, register counter) must be (0, 0, 0, 0) and a stop must not change what other nodes hold.",
         design="9.5/C11 (notes/C11.md)",
-        note="Trusted: as C09. Known findings: C11:epr-temporaries (D16 ii), C11:appid-reuse (application id cannot be reused after StopApp; root cause in netqasm's SharedMemoryManager).",
+        note="Trusted: as C09. Known finding: C11:appid-reuse (application id cannot be reused after StopApp; root cause in netqasm's SharedMemoryManager). Repaired: D16(i) refused qalloc, D16(ii) temporaries of a failed pair creation (ba627eb).",
         technique="Coq proof (teardown invariant over application histories, refutation witness) + vm_compute correspondence + count oracle"),
     "C12": dict(
         text="Coq theorems: may_create topo known self r = true <-> r is a known node, r <> self, and (no topology configured or r is listed among self's neighbours) — directed topologies, nodes absent from the topology, unknown ids; refusal kinds in the order cmd_epr checks them. is_adjacent is regenerated from factory.py on every run and proved equal to the model; the order of the three checks in cmd_epr before the first cmd_new is a generated obligation. Tie: the real NetQASMFactory.is_adjacent / cmd_epr (sentinel cmd_new) over ALL directed topologies on <= 3 nodes x all ordered pairs, random up to 5 nodes.",
